@@ -124,11 +124,29 @@ static std::string oneLine(std::string s) {
 }
 
 int main(int argc, char** argv) {
-  signal(SIGSEGV, onFatal);
-  signal(SIGABRT, onFatal);
-  signal(SIGBUS, onFatal);
-  signal(SIGFPE, onFatal);
-  signal(SIGILL, onFatal);
+  signal(SIGABRT, onFatal);  // library assertions (ARDUINOJSON_DEBUG=1)
+#if !defined(__has_feature)
+#  define __has_feature(x) 0
+#endif
+#if !__has_feature(address_sanitizer) && !__has_feature(thread_sanitizer)
+  // sanitizer builds report these themselves (with a stack trace, exit code 77)
+  {
+    static char altstack[1 << 16];
+    stack_t ss;
+    ss.ss_sp = altstack;
+    ss.ss_size = sizeof altstack;
+    ss.ss_flags = 0;
+    sigaltstack(&ss, nullptr);
+    struct sigaction sa;
+    memset(&sa, 0, sizeof sa);
+    sa.sa_handler = onFatal;
+    sa.sa_flags = SA_ONSTACK;
+    sigaction(SIGSEGV, &sa, nullptr);
+    sigaction(SIGBUS, &sa, nullptr);
+    sigaction(SIGFPE, &sa, nullptr);
+    sigaction(SIGILL, &sa, nullptr);
+  }
+#endif
   std::set_terminate([] {
     printf("\nCRASH terminate %s\n", g_beacon);
     fflush(stdout);
